@@ -220,8 +220,10 @@ def main(argv=None):
             # a loop may legitimately disappear (loop -> comprehension): accepted when the same function still has a
             # functional postcondition obligation (returns / ensures / final) generated in this run
             fn_prefix = oid.rsplit("/", 1)[0] + "/"
-            if any(o2.startswith(fn_prefix) and any(k in o2 for k in ("/returns", "/ensures", "/final")) for o2 in by_id):
-                continue
+            label = oid.rsplit("#", 1)[-1]
+            if any(o2.startswith(fn_prefix) and (any(k in o2 for k in ("/returns", "/ensures", "/final"))
+                                                 or ("/inv-preserve#" in o2 and o2.rsplit("#", 1)[-1] != label)) for o2 in by_id):
+                continue   # (an enclosing / other loop of the function still carries its invariant over the rewritten code)
         fn = oid.split("/", 1)[1].rsplit("/", 1)[0] if "/" in oid else oid
         if any(fn.split("::")[-1] in m and fn.split("::")[0].split("/")[-1] in m for m in missing_fn_prefixes):
             continue
